@@ -512,7 +512,8 @@ pub fn c14(tier: Tier) -> Vec<Case> {
         Tier::Quick => (2, 3),
         Tier::Thorough => (3, 4),
     };
-    let inputs = InputSpec::Strings { alphabet: vec!['b', 'c', ' '], max_len: len };
+    // é: a multi-byte character right after a hooked match
+    let inputs = InputSpec::Strings { alphabet: vec!['b', 'c', ' ', 'é'], max_len: len };
     // rule kinds carrying checks / extern rules; `H` is the hooked rule
     let kinds = |ctxv: bool| -> Vec<(&'static str, Vec<Rule>)> {
         let c0 = if ctxv { "chkx0" } else { "chk0" };
@@ -608,6 +609,12 @@ pub fn c19(tier: Tier) -> Vec<Case> {
             b.add("trace/memo", with_memo(&g, &names, mask), memo_inputs(Tier::Quick));
         }
     }
+    // deep nesting: many rule entries open at once
+    for g in nested_grammars() {
+        if b.add("trace/deep", g, InputSpec::List(nested_inputs(&[0, 1, 2, 7, 31, 62, 63, 64, 65, 66, 90, 130, 200]))) {
+            b.last().note = "indented-all".into();
+        }
+    }
     for c in c07(Tier::Quick) {
         let inputs = match &c.inputs {
             InputSpec::Strings { alphabet, max_len } => InputSpec::Strings { alphabet: alphabet.clone(), max_len: (*max_len).min(4) },
@@ -637,6 +644,39 @@ pub fn c19(tier: Tier) -> Vec<Case> {
     b.cases
 }
 
+/// recursive grammars whose nesting depth follows the input
+pub fn nested_grammars() -> Vec<Grammar> {
+    let leaf = Rule::normal("Leaf", vec![Directive::NoSkipWs], lit("x"));
+    vec![
+        Grammar {
+            rules: vec![
+                Rule::normal("Root", vec![Directive::Export, Directive::NoSkipWs], field("n", "Nested")),
+                Rule::normal("Nested", vec![Directive::NoSkipWs], choice(vec![seq(vec![lit("("), bfield("inner", "Nested"), lit(")")]), field("leaf", "Leaf")])),
+                leaf.clone(),
+            ],
+        },
+        Grammar {
+            rules: vec![
+                Rule::normal("Root", vec![Directive::Export, Directive::NoSkipWs], field("n", "Nested")),
+                Rule::normal(
+                    "Nested",
+                    vec![Directive::NoSkipWs, Directive::Memoize],
+                    choice(vec![seq(vec![lit("("), bfield("inner", "Nested"), lit("]")]), seq(vec![lit("("), bfield("inner", "Nested"), lit(")")]), field("leaf", "Leaf")]),
+                ),
+                leaf,
+            ],
+        },
+    ]
+}
+
+pub fn nested_inputs(depths: &[usize]) -> Vec<String> {
+    let mut v = vec!["x".to_string(), "(x".to_string(), "y".to_string()];
+    for d in depths {
+        v.push(format!("{}x{}", "(".repeat(*d), ")".repeat(*d)));
+    }
+    v
+}
+
 // ------------------------------------------------------------------------------------------ C20
 
 pub fn c20(tier: Tier) -> Vec<Case> {
@@ -656,6 +696,10 @@ pub fn c20(tier: Tier) -> Vec<Case> {
     // skipping rules and whitespace in the inputs (hidden state in whitespace handling)
     for (g, names) in memo_bases_mixed_skip(Tier::Quick).into_iter().step_by(13).take(n / 4) {
         b.add("pure/memo-skip", with_memo(&g, &names, 7), InputSpec::Strings { alphabet: vec!['b', 'x', ' '], max_len: 3 });
+    }
+    // a parse that nests deeper than any plausible fixed limit, before and after shallow ones
+    for g in nested_grammars().into_iter().take(1) {
+        b.add("pure/deep-nesting", g, InputSpec::List(nested_inputs(&[3, 300, 1, 270])));
     }
     let lr = c07(Tier::Quick);
     let step = (lr.len() / (n / 2)).max(1);
